@@ -41,3 +41,64 @@ Lemma ex_phrase_slop :
   run ex_sn copts_default (QPhrase 0 [[t_ab]; [t_ab]] 0) = Ok [] /\
   sem_numbers (QPhrase 0 [[t_ab]; [t_ab]] 1) ex_sn = [2].
 Proof. vm_compute. repeat split; reflexivity. Qed.
+
+(* ---------- the bitmap rewrites of index/optimize.go return the same document set ---------- *)
+
+Lemma zmem_In x l : zmem x l = true <-> In x l.
+Proof.
+  unfold zmem. rewrite existsb_exists. split.
+  - intros [y [Hy E]]. apply Z.eqb_eq in E. subst. exact Hy.
+  - intros H. exists x. split; [exact H|apply Z.eqb_refl].
+Qed.
+
+Lemma pnums_bare l : pnums (map bare l) = l.
+Proof. unfold pnums. rewrite map_map. simpl. apply map_id. Qed.
+
+(* unadorned conjunction (optimizeConjunctionUnadorned.Finish): per segment the numbers present
+   in every child's list *)
+Lemma inter_seg_spec : forall ls x,
+  In x (pnums (inter_seg ls)) <-> ls <> [] /\ forall l, In l ls -> In x (pnums l).
+Proof.
+  intros [| l0 r] x; simpl.
+  - split; [intros []|intros [H _]; congruence].
+  - unfold pnums at 1. rewrite map_map. simpl. rewrite in_map_iff. split.
+    + intros [p [Hp Hin]]. apply filter_In in Hin. destruct Hin as [Hin Hall]. split; [discriminate|].
+      intros l [<-|Hl].
+      * unfold pnums. apply in_map_iff. exists p. split; assumption.
+      * rewrite forallb_forall in Hall. specialize (Hall l Hl). rewrite Hp in Hall. apply zmem_In. exact Hall.
+    + intros [_ Hall]. pose proof (Hall l0 (or_introl eq_refl)) as H0. unfold pnums in H0. apply in_map_iff in H0.
+      destruct H0 as [p [Hp Hin]]. exists p. split; [exact Hp|]. apply filter_In. split; [exact Hin|].
+      apply forallb_forall. intros l Hl. rewrite Hp. apply zmem_In. apply Hall. right. exact Hl.
+Qed.
+
+Lemma insert_pos_In x y l : In x (insert_pos y l) <-> x = y \/ In x l.
+Proof.
+  induction l as [| h r IH]; simpl; [intuition|].
+  destruct (y <? h); [simpl; intuition|]. destruct (y =? h) eqn:E.
+  - apply Z.eqb_eq in E. subst. simpl. intuition.
+  - simpl. rewrite IH. intuition.
+Qed.
+
+Lemma sort_dedupe_In x l : In x (fold_right insert_pos [] l) <-> In x l.
+Proof.
+  induction l as [| a l IH]; simpl; [reflexivity|]. rewrite insert_pos_In, IH. intuition.
+Qed.
+
+(* unadorned disjunction (optimizeDisjunctionUnadorned.Finish): per segment the numbers present
+   in some child's list *)
+Lemma union_seg_spec : forall ls x,
+  In x (pnums (union_seg ls)) <-> exists l, In l ls /\ In x (pnums l).
+Proof.
+  intros ls x. unfold union_seg. rewrite pnums_bare, sort_dedupe_In, in_flat_map. reflexivity.
+Qed.
+
+(* the "conjunction" push-down (optimizeConjunction.Finish, and_replace): a term child keeps
+   exactly its entries whose number every term child of the segment holds *)
+Lemma and_replace_filter_spec : forall (col : list (list posting)) (l : list posting) p,
+  In p (filter (fun p => forallb (fun l' => zmem (p_num p) (pnums l')) col) l) <->
+  In p l /\ forall l', In l' col -> In (p_num p) (pnums l').
+Proof.
+  intros col l p. rewrite filter_In, forallb_forall. split; intros [H1 H2]; split; auto.
+  - intros l' Hl'. apply zmem_In. apply H2. exact Hl'.
+  - intros l' Hl'. apply zmem_In. apply H2. exact Hl'.
+Qed.
